@@ -60,6 +60,7 @@ func checkC12(ctx *Ctx, r *Report) {
 	c12FourthRound(ctx, r, p)
 	c12FifthRound(ctx, r, p)
 	c12SixthRound(ctx, r)
+	c12SeventhRound(ctx, r)
 	c08UnionReuseComparesBranches(ctx, r) // two unions that differ by the value type of a map branch share one Go wrapper
 	c01GoNamedDateTimeIsAlias(ctx, r)     // a named date-time encodes as {}
 	c12ConstructorCollections(ctx, r)
@@ -1966,4 +1967,44 @@ func c12SixthRound(ctx *Ctx, r *Report) {
 	r.Count("hunted clauses of the emitted documents (6th round)", 1)
 	r.Check(checksTags, "keywords/go-tag-names-checked", "golang.RawTypes.generateSchema writes field names into struct tags", fd.Pos(), "after a check of the names against what a tag can carry, with an error exit",
 		"the Go types jenny writes the name of a field into `json:\"…\"` as it is: `\"size,unit\"` is read by encoding/json as the name `size` with an option, `\"owner's\"` is ignored (the key becomes OwnerS), `\"-\"` means \"not encoded\" — every encoding of the type misses and adds properties for the emitted schema, which keeps the names and has additionalProperties: false")
+}
+
+// c12SeventhRound — sixth hunt of C12 (a finding): the Go constructor leaves a required field typed by a reference to an
+// enum at its zero value ("" / 0), which is no member: json.Marshal(NewRoot()) does not validate against the emitted
+// schema. The condition that decides which fields the constructor initialises has a clause for required enums (the branch
+// that picks the first member exists already, and is only reached when a default is declared).
+func c12SeventhRound(ctx *Ctx, r *Report) {
+	fn := ctx.LookupMethod("internal/jennies/golang", "RawTypes", "defaultsForStructRec")
+	fd, _ := ctx.DeclOf(fn)
+	if fd == nil {
+		r.Undecided("anchor lost: golang.RawTypes.defaultsForStructRec")
+		return
+	}
+	found, enums := false, false
+	ast.Inspect(fd.Body, func(m ast.Node) bool {
+		as, ok := m.(*ast.AssignStmt)
+		if !ok || len(as.Lhs) != 1 || len(as.Rhs) != 1 {
+			return true
+		}
+		if id, ok := as.Lhs[0].(*ast.Ident); !ok || id.Name != "needsExplicitDefault" {
+			return true
+		}
+		found = true
+		ast.Inspect(as.Rhs[0], func(q ast.Node) bool {
+			if be, ok := q.(*ast.BinaryExpr); ok && be.Op == token.LAND {
+				text := exprString(be)
+				if strings.Contains(text, ".Required") && strings.Contains(text, "IsEnum()") {
+					enums = true
+				}
+			}
+			return true
+		})
+		return true
+	})
+	if !found {
+		r.Undecided("anchor changed: defaultsForStructRec no longer computes needsExplicitDefault")
+	}
+	r.Count("hunted clauses of the schema-agreement rules (7th round)", 1)
+	r.Check(enums, "skeleton/go-required-enum-initialised", "golang.defaultsForStructRec decides which fields the constructor initialises", fd.Pos(), "required references to enums among them",
+		"a required field typed by a reference to an enum gets no initial value: `#Mode: \"one\" | \"two\"; #Level: 1 | 2; #Root: {mode: #Mode, level: #Level}` — json.Marshal(NewRoot()) is {\"mode\":\"\",\"level\":0}, which the emitted definition of Root rejects ('/mode' value must be one of \"one\", \"two\"); Python starts from the first member")
 }
